@@ -27,9 +27,11 @@ import (
 // Conn represents a database connection.
 type Conn struct {
 	net.Conn
-	isClosed  bool
-	id        DatabaseID
-	authrized bool
+	// closeMutex guards isClosed: a connection is closed by its own goroutine and by Stop.
+	closeMutex sync.Mutex
+	isClosed   bool
+	id         DatabaseID
+	authrized  bool
 	sync.Map
 	ts time.Time
 	tracer.Context
@@ -59,14 +61,13 @@ func newConnWith(conn net.Conn, tlsState *tls.ConnectionState) *Conn {
 
 // Close closes the connection.
 func (conn *Conn) Close() error {
+	conn.closeMutex.Lock()
+	defer conn.closeMutex.Unlock()
 	if conn.isClosed {
 		return nil
 	}
-	if err := conn.Conn.Close(); err != nil {
-		return err
-	}
 	conn.isClosed = true
-	return nil
+	return conn.Conn.Close()
 }
 
 // SetDatabase sets the selected database number to the connection.
